@@ -104,6 +104,52 @@ let () = register "cache" (fun args ->
           | [ "rem" ] -> call ORem false; None
           | [ "max" ] -> call OMax false; None
           | [ "updmax"; z ] -> call (OUpdMax (z_of_string z)) false; None
+          | [ "tok"; "sel"; hint ] ->
+              (* a blocked Clear/Close completed during this token: Go's select decided after how many of the ungated
+                 items (tombstones, Wait markers) that follow the gated head the applier took the stop signal.  The
+                 implementation's choice is observed through the tombstones it processed itself (an OnExit without
+                 OnEvict): the smallest consistent number is replayed. *)
+              if !st.s_buf = [] || !st.s_apc = AExited then Some "idle"
+              else begin
+                let want = if hint = "-" then [] else List.sort compare (String.split_on_char ',' hint) in
+                let s0 = !st in
+                let rec finish s fuel =
+                  if fuel = 0 || (s.s_apc = AIdle && s.s_apend = []) then s
+                  else match mstep cfg s (LApp (false, [])) with Some s' -> finish s' (fuel - 1) | None -> s in
+                let senders s = List.fold_left (fun s t -> run_client cfg (nat_of_int 1000) s t) s (nonclear_blocked ()) in
+                let take s = match mstep cfg s (LApp (false, [])) with
+                  | Some s' -> Some (senders (finish s' 10000)) | None -> None in
+                let clears () = List.map nat_of_int (asc (List.map fst (List.filter (fun (_, c) -> c) !blocked))) in
+                let variant k =
+                  let rec go s j =
+                    if j = 0 then Some s
+                    else match s.s_buf with
+                      | i :: _ when not (gated cfg i) -> (match take s with Some s' -> go s' (j - 1) | None -> None)
+                      | _ -> None in
+                  match take s0 with
+                  | None -> None
+                  | Some s1 ->
+                      (match go s1 k with
+                       | None -> None
+                       | Some s2 ->
+                           let s3 = List.fold_left (fun s t -> run_client cfg (nat_of_int 4000) s t) s2 (clears ()) in
+                           Some (settle cfg (nat_of_int 1000) s3 (all_blocked ()))) in
+                let exit_only s =
+                  let evs = list_take (int_of_nat (length s.s_log) - before) s.s_log in
+                  let ex = List.filter_map (function ECb (_, CbExit v) when v <> N0 -> Some (string_of_n v) | _ -> None) evs in
+                  let ev = List.filter_map (function
+                      | ECb (_, CbEvict (_, _, v, _)) | ECb (_, CbReject (_, _, v, _)) -> Some (string_of_n v)
+                      | _ -> None) evs in
+                  List.sort compare (List.filter (fun v -> not (List.mem v ev)) ex) in
+                let rec search k =
+                  match variant k with
+                  | None -> None
+                  | Some s -> if exit_only s = want then Some s else search (k + 1) in
+                (match search 0 with
+                 | Some s -> st := s
+                 | None -> st := do_tok cfg !st (all_blocked ()));
+                Some "ok"
+              end
           | "tok" :: rest ->
               if !st.s_buf = [] || !st.s_apc = AExited then Some "idle"
               else begin
